@@ -1216,6 +1216,12 @@ func (e *Engine) load(s *state, addr *Term, typ types.Type) *Term {
 		if whole, ok := s.mem[base.key]; ok {
 			return e.fieldOf(whole, addr.Name, typ)
 		}
+		if typ != nil && isLocalAddr(addr) {
+			// an embedded/nested struct held field by field below a local allocation
+			if sv, ok := e.structFromCells(s, addr, typ, 0); ok {
+				return sv
+			}
+		}
 		if base.Kind == "alloc" {
 			return zeroOf(typ)
 		}
@@ -1226,19 +1232,8 @@ func (e *Engine) load(s *state, addr *Term, typ types.Type) *Term {
 		return e.rebind(mk("field", addr.Name, 0, typ, base))
 	case "alloc":
 		if typ != nil {
-			if st, ok := typ.Underlying().(*types.Struct); ok {
-				var fs []*Term
-				any := false
-				for i := 0; i < st.NumFields(); i++ {
-					k := mk("faddr", st.Field(i).Name(), 0, nil, addr).key
-					if fv, ok := s.mem[k]; ok {
-						fs = append(fs, mk("fieldval", st.Field(i).Name(), 0, nil, fv))
-						any = true
-					}
-				}
-				if any {
-					return mk("structval", typeStr(typ), 0, typ, fs...)
-				}
+			if sv, ok := e.structFromCells(s, addr, typ, 0); ok {
+				return sv
 			}
 		}
 		return zeroOf(typ)
@@ -1276,6 +1271,30 @@ func (e *Engine) load(s *state, addr *Term, typ types.Type) *Term {
 		return e.rebind(mk("deref", "", 0, typ, addr))
 	}
 	return e.rebind(mk("deref", "", 0, typ, addr))
+}
+
+// structFromCells assembles the value of a struct held at addr from the field cells written below it (nested structs
+// recursively); ok is false when no cell is known.
+func (e *Engine) structFromCells(s *state, addr *Term, typ types.Type, depth int) (*Term, bool) {
+	st, isStruct := typ.Underlying().(*types.Struct)
+	if !isStruct || depth > 4 {
+		return nil, false
+	}
+	var fs []*Term
+	for i := 0; i < st.NumFields(); i++ {
+		fa := mk("faddr", st.Field(i).Name(), 0, nil, addr)
+		if fv, ok := s.mem[fa.key]; ok {
+			fs = append(fs, mk("fieldval", st.Field(i).Name(), 0, nil, fv))
+			continue
+		}
+		if sub, ok := e.structFromCells(s, fa, st.Field(i).Type(), depth+1); ok {
+			fs = append(fs, mk("fieldval", st.Field(i).Name(), 0, nil, sub))
+		}
+	}
+	if len(fs) == 0 {
+		return nil, false
+	}
+	return mk("structval", typeStr(typ), 0, typ, fs...), true
 }
 
 func (e *Engine) fieldOf(whole *Term, name string, typ types.Type) *Term {
